@@ -328,7 +328,15 @@ def _eval_const(expr: str, env: dict):
         }
         if not isinstance(a, (int, float)) or not isinstance(b, (int, float)):
             raise ValueError("unsupported operand type")
-        return ops[opcls](a, b)
+        if opcls is ast.Pow and isinstance(a, int) and isinstance(b, int):
+            if b > 0 and max(a.bit_length(), 1) * b > 4096:
+                raise ValueError("constant too large to fold")
+        if opcls is ast.LShift and isinstance(b, int) and b > 4096:
+            raise ValueError("constant too large to fold")
+        try:
+            return ops[opcls](a, b)
+        except (OverflowError, ZeroDivisionError) as exc:
+            raise ValueError("constant expression cannot be folded") from exc
 
     tree = ast.parse(expr, mode="eval")
     return ev(tree.body)
